@@ -339,5 +339,6 @@ func init() {
 		Rule:   "event sequences of length 0..5 over {Added, Modified, Deleted, Bookmark, Error} sent through a controllable unbuffered source behind the real hijack client's Watch, crossed with 8 consumer plans (drain; receive k then Stop then drain / abandon; Stop first; Stop twice; Stop while the relay is parked with an event in flight, decided from a goroutine dump; Stop concurrently with draining); oracles: relayed sequence = sent prefix (type, name, resourceVersion, payload type), Error events relayed with their Status, result channel closed, source stopped, no goroutine left in hijackWatch.receive (goroutine dump); child processes with production crash behaviour: a dead child is a violation witnessed by the logged case; distinct = distinct (sequence, plan, k)",
 		Assume: []string{"goroutine-leak verdict: the relay is still parked (chan send / chan receive / select) 3s after every other party finished and nobody holds its channels; wall-clock waits are watchdogs only"},
 		Cases:  scenarioCases(8000, 120000), Run: runC20, DeathIsViolation: true,
+		Race: runC20, RaceCases: scenarioCases(1600, 16000),
 		Floors: []string{"events_ERROR", "events_BOOKMARK", "plan_recv-k-wait-parked-stop-abandon", "plan_stop-twice-drain"}})
 }
